@@ -14,7 +14,9 @@ import os
 
 from common import coqc, coqc_many, parse_evals
 
-THEOREMS = ["C01_history_independent", "C01_order_irrelevant", "C01_step_inv", "C01_stale_report_empty"]
+THEOREMS = ["C01_history_independent", "C01_order_irrelevant", "C01_step_inv", "C01_stale_report_empty",
+            "C01_notifier_refines_subscriptions", "C01_notify_calls_exactly_the_subscribed", "C01_notify_purges_dead",
+            "C01_purging_variant_refuted"]
 
 DATA = ["P_material", "X_cache", "R_cache", "T_cache", "BR_cache", "TRP_cache", "A_stopping", "A_density",
         "B_geometry", "B_material", "CX_cache", "BES_cache", "L_geometry", "L_material", "S_arrays", "LP_function"]
@@ -176,6 +178,10 @@ def run(ctx):
     import cherab
     from common import REPO
     assert list(cherab.__path__) == [REPO + "/cherab"], cherab.__path__
+
+    # ---- (X) the Notifier itself: real class vs Gallina model, operation by operation ---------------------------
+    import c01_notifier
+    c01_notifier.run_notifier(ctx)
     import c01_scene as S
     rng = ctx.rng
     FIELDS = S.FIELDS
